@@ -555,6 +555,23 @@ class ElemEngine:
         if s == 'fold' and 'Iterator' in p:
             init = flat(self.ev(env, a[1]))
             item = self.item_value(env, a[0])
+            ck, cups = self.closure_of(env, a[2])
+            cg = self.prog.func(ck) if ck is not None and ck in self.pdb.bodies else None
+            if cg is not None:
+                off = 2 if cg.body.kind == 'closure' else 1
+                aty = cg.body.local_ty(off)
+                if aty is not None and is_arrayish_ty(aty.lstrip('&').replace('mut ', '').strip()):
+                    # a fold whose accumulator is a collection handed from step to step: the result holds the initial elements plus
+                    # whatever the step stores into the accumulator; the step must hand the accumulator on
+                    acc = ('arg', off, cg.names.get(off))
+                    rv = cg.return_values()
+                    if len(rv) != 1 or self.canon(rv[0]) != acc:
+                        return top('fold step does not return its accumulator')
+                    cenv = Env(cg, {off: init, off + 1: item}, cups or {})
+                    self._inherit_closures(env, a[2], cenv)
+                    self.visited.add(ck)
+                    st = self.stored_into(cenv, acc)
+                    return init if st is None else (init | flat(st))
             step = self.apply_closure(env, a[2], [frozenset([('sym', 'acc')]), item])
             return frozenset([('red', 'fold', flat(step) | init)])
         if p == 'std::ops::Fn::call' or p == 'std::ops::FnMut::call_mut' or p == 'std::ops::FnOnce::call_once':
